@@ -187,11 +187,12 @@ def r2_relations(ctx):
     # ---- slope
     f = steps["correct_force_slope"]
     ctx.analysed(f)
-    R = Resolver(f)
+    R = Resolver(f, keep={"abscissa", "mod", "out", "idp", "idturn",
+                          "force", "tip_position", "time_position"})
     copies = [st for st in walk_no_nested(f, False)
               if isinstance(st, ast.Assign) and isinstance(st.value, ast.Call)
               and call_name(st.value) in ("np.copy", "np.array", "copy.copy")
-              and R.text(st.value.args[0]) == "apret['force']"]
+              and R.text(st.value.args[0]) in ("apret['force']", "force")]
     ctx.check(len(copies) == 1, f, "slope correction edits a copy of the "
               "force", "the slope correction edits the force column in "
               "place")
